@@ -271,7 +271,7 @@ func init() {
 		Doc:  "edge-rule label obligations over every AddEdge[Weighted] call site (DESIGN §4 EDGE)",
 		Run:  runEdge,
 		Floor: map[string]int{
-			"EDGE-T": 6, "EDGE-S": 6, "EDGE-N": 1, "EDGE-K": 10,
+			"EDGE-T": 6, "EDGE-S": 6, "EDGE-N": 1, "EDGE-K": 10, "EDGE-V": 8,
 		},
 	})
 }
@@ -345,6 +345,18 @@ func runEdge(c *Ctx) {
 			c.R.Add("EDGE-N", base, e.Role, e.Pos, e.Rel["Name"] == "=",
 				"an edge between two named value vertices requires equal names",
 				"Name relation: "+e.Rel["Name"], gs...)
+		}
+	}
+	// EDGE-V: every vertex added to the graph is allocated for this graph (no vertex object, and hence no
+	// vertex value, survives from an earlier call or planning run)
+	nv := 0
+	for _, f := range p.ArgFuncs() {
+		for _, call := range core.Calls(f, core.GAdd, core.GAddOverwrite) {
+			nv++
+			fresh := p.FreshIn(call.Common().Args[1])
+			c.R.Add("EDGE-V", fmt.Sprintf("%s|vertex#%d", core.FuncName(f), nv), core.FuncName(f), p.InstrPos(call), fresh,
+				"every vertex added to a resolution graph is freshly allocated while that graph is built (vertex values cannot leak between calls)",
+				ternary(fresh, "fresh", "vertex object "+core.Path(call.Common().Args[1])+" is not allocated here (it may carry a value from an earlier call)"))
 		}
 	}
 	// EDGE-K: every rule class of the reference table is present
